@@ -185,7 +185,7 @@ func (p *Path) cloneValue(v Value) Value {
 			return (*ChanV)(nil)
 		}
 		p.objN++
-		return &ChanV{ID: p.objN, Name: x.Name, Cap: x.Cap}
+		return &ChanV{ID: p.objN, Name: x.Name, Cap: x.Cap, Closed: x.Closed}
 	case TupleV:
 		out := make(TupleV, len(x))
 		for i, f := range x {
